@@ -87,7 +87,7 @@ def m_value_op(ex, callee, args, ret_ty, frame):
 
 def m_is_truthy(ex, callee, args, ret_ty, frame):
     v = models.deref(ex, args[0])
-    b = truthy_of(ex, v.vid)
+    b = __import__("t_macros").truthy_of(ex, v.vid, v)
     ex.used["havocked"].add("CelValueDyn::is_truthy")
     return VBool(b)
 
